@@ -14,7 +14,7 @@ func specC17() *PropSpec {
 			Bounds: "all 64-bit values of every input (bit-vector semantics; loops have constant trip counts 5 and 6, fully unrolled)"}
 	}
 	return &PropSpec{
-		ID: "C17",
+		ID: "C17", Exhaustive: true,
 		Obligations: []Obligation{
 			o("VerifC17RoundTrip", "x,y <= 2^32-1 => ok and FromZ(ToZ(x,y)) == (x,y)", "roundtrip"),
 			o("VerifC17Injective", "(x1,y1) != (x2,y2), all 32-bit => ToZ differs", "injective"),
@@ -303,7 +303,8 @@ func specC15() *PropSpec {
 func specC10() *PropSpec {
 	return &PropSpec{ID: "C10", NeedsGen: false,
 		Assumptions: []string{"the pipeline is a Kahn process network (every channel has one sender and one receiver, no select, no shared mutable state between stages): its results do not depend on the schedule; the executor runs one canonical schedule (run until blocked, lowest goroutine id first)",
-			"sync.WaitGroup and unbuffered channels are modelled by the executor; log/fmt calls are no-ops"},
+			"sync.WaitGroup and channels are modelled by the executor (the cut queries assume unbuffered channels and flag buffered ones); log/fmt calls are no-ops",
+			"environment stub: runtime.GOMAXPROCS / runtime.NumCPU (not called by the unchanged code) return an arbitrary value in 1..4 that is an input of the path"},
 		Outside: []string{"streams longer than 2 (quick) / 3 (thorough) features, more than 2 / 3 targets, multipolygons of more than 2 parts", "data races and runtime-level goroutine leaks"},
 		Obligations: []Obligation{
 			{Harness: "VerifC10Stream", Pkg: "processing", Mode: "math", Tiers: "quick", Covers: []string{"returned"},
